@@ -324,13 +324,13 @@ func TestVerifC20Fields(t *testing.T) {
 
 func TestVerifC20Formats(t *testing.T) {
 	L := ev.Begin("C20", "c20-formats", "exploration",
-		"format strings: the two stock formats and every concatenation literal+field+literal+field+literal over all fields (incl. $header.X) x literals {'', ' ', ' - ', '[', '\"', '$$', ' $ ', '$' directly in front of a field, trailing '$'} on 6 events; reference = concatenation of the per-field standard-library renderings; invalid formats (unknown field, empty) must be rejected with an error, not a panic. non-trivial = format with >=2 fields")
+		"format strings: the two stock formats and every concatenation literal+field+literal+field+literal over all fields (incl. $header.X) x literals {'', ' ', ' - ', '[', '\"', '$$', ' $ ', '$' directly in front of a field, trailing '$', text outside ASCII (2- and 3-byte characters)} on 6 events; reference = concatenation of the per-field standard-library renderings; invalid formats (unknown field, empty) must be rejected with an error, not a panic. non-trivial = format with >=2 fields")
 	var names []string
 	for f := range fields {
 		names = append(names, f)
 	}
 	names = append(names, "$header.Referer", "$header.Absent")
-	lits := []string{"", " ", " - ", "[", "\"", "$$", " $ ", "$"} // "$": a literal dollar directly in front of a field (cost=$$response_status)
+	lits := []string{"", " ", " - ", "[", "\"", "$$", " $ ", "$", " → ", "µs ", "日"} // "$": a literal dollar directly in front of a field (cost=$$response_status)
 	events := []c20Ev{
 		{c20Times()[1], c20Durs[2], 1234567, 200, "1.2.3.4:5", "h:80", 1},
 		{c20Times()[5], c20Durs[5], 0, 404, "[::1]:80", "[::1]:80", 2},
